@@ -135,6 +135,10 @@ int main(int argc, char** argv)
                                  [&](mc::Report& rep) { chk.run_second(D, f, {}, av, {}, rep, idx); });
                     });
         }
+        // (1c) the toggle (or its short name) is declared through a kept reference after the parser has been used, or the
+        // parser object held the next declaration of the grid before
+        for (size_t di = 0; di < decls.size(); di++)
+            for_all_vectors(alpha, a.asan() ? 1 : 2, ctx, [&](const std::vector<std::string>& av) { chk.used_before(ctx, decls[di], decls[(di + 5) % decls.size()], av, {}); });
         // (2) environment words through parse(), with and without the toggle on the command line
         for (auto& D : decls)
         {
